@@ -1,5 +1,5 @@
 """C12 -- loading a corpus directory equals adding each of its files.
-M: V2Load (intended semantics; enumerates trees x spellings).  G (main leg): every enumerated (tree, spelling) materialised and loaded with
+M: V2Load (intended semantics; enumerates trees x spellings x histories).  G (main leg): every enumerated (tree, spelling) materialised and loaded with
 the real LoadLicenses.  T: the real assets directory under four spellings and DefaultClassifier vs LoadLicenses."""
 import os, time
 from lib import vlib
@@ -11,19 +11,35 @@ def run():
     gen = tlc("V2Load", "V2Load.cfg", workers=4, timeout=1800, files={"V2Load.cfg": cfg_text("V2Load.cfg", MaxFiles=3 if th else 2)})
     tlc_require_ok(gen, "V2Load")
     acc.add_tlc(gen, "V2Load.cfg")
-    out = os.path.join(sub("out"), "load.ndjson")
-    rc, txt, _ = go_overlay_test("v2", V2_SOURCES, "^TestVerifLoadReplay$", env={"VERIF_IN": gen.outpath, "VERIF_OUT": out}, timeout=3000)
-    recs = read_ndjson(out)
-    summ = [r for r in recs if r.get("kind") == "summary"]
-    if vlib.build_failed(txt) or not summ or summ[0]["vectors"] == 0:
-        raise vlib.Inconclusive("load replay driver failed:\n" + txt[-3000:])
-    s = summ[0]
-    acc.evaluations += s["vectors"]; acc.nontrivial += s["nontrivial"]
-    acc.extra["replay"] = {"vectors": s["vectors"], "nontrivial": s["nontrivial"], "classes": s["classes"]}
-    acc.samples += [{"vector": x} for x in (s.get("samples") or [])]
-    for r in recs:
-        if r.get("kind") == "mismatch":
-            v.fail("load:%s:%s" % (r["class"], r["spelling"]), r)
+    # the replay is bound by file-system calls: the vectors are dealt to 8 driver processes (each with its own scratch root and cwd)
+    from concurrent.futures import ThreadPoolExecutor
+    NSH = 8
+    def shard(i):
+        out = os.path.join(sub("out"), "load.%d.ndjson" % i)
+        if os.path.exists(out):
+            os.remove(out)
+        rc, txt, _ = go_overlay_test("v2", V2_SOURCES, "^TestVerifLoadReplay$", timeout=3000,
+                                     env={"VERIF_IN": gen.outpath, "VERIF_OUT": out, "VERIF_SHARD": str(i), "VERIF_SHARDS": str(NSH)})
+        return txt, read_ndjson(out)
+    with ThreadPoolExecutor(NSH) as ex:
+        results = list(ex.map(shard, range(NSH)))
+    tot = {"vectors": 0, "nontrivial": 0, "classes": {}}
+    for txt, recs in results:
+        summ = [r for r in recs if r.get("kind") == "summary"]
+        if vlib.build_failed(txt) or not summ:
+            raise vlib.Inconclusive("load replay driver failed:\n" + txt[-3000:])
+        s = summ[0]
+        tot["vectors"] += s["vectors"]; tot["nontrivial"] += s["nontrivial"]
+        for k, n in (s["classes"] or {}).items():
+            tot["classes"][k] = tot["classes"].get(k, 0) + n
+        acc.samples += [{"vector": x} for x in (s.get("samples") or [])[:1]]
+        for r in recs:
+            if r.get("kind") == "mismatch":
+                v.fail("load:%s:%s" % (r["class"], r["spelling"]), r)
+    if tot["vectors"] == 0:
+        raise vlib.Inconclusive("no vector reached the load replay driver")
+    acc.evaluations += tot["vectors"]; acc.nontrivial += tot["nontrivial"]
+    acc.extra["replay"] = tot
     # real assets directory
     out2 = os.path.join(sub("out"), "assets.ndjson")
     rc, txt, _ = go_overlay_test("v2", V2_SOURCES, "^TestVerifLoadAssets$", env={"VERIF_OUT": out2}, timeout=1800)
@@ -43,6 +59,6 @@ def run():
     if recs[0]["why"]:
         v.fail("default", recs[0])
     rc = v.finish()
-    vlib.write_evidence(PID, acc.coverage("every set of <= MaxFiles files out of 104 candidates (depth 1..5, two names per level, suffixes .txt / bare txt / .md / .TXT) x 5 spellings of the directory, materialised on disk; non-trivial = trees with at least one file at category/name/variant depth; plus the real assets directory under 4 spellings and DefaultClassifier vs LoadLicenses on all embedded documents", exhaustive=True),
+    vlib.write_evidence(PID, acc.coverage("every set of <= MaxFiles files out of 104 candidates (depth 1..5, two names per level, suffixes .txt / bare txt / .md / .TXT) x 9 spellings of the directory (plain, trailing /, ./, absolute, `.` and `./` from inside, dir/., dir/../dir) with a fresh classifier, and x {keys registered before with other content, directory loaded before its files were edited}; directory names with a leading dot; materialised on disk; non-trivial = trees with at least one file at category/name/variant depth; plus the real assets directory under 4 spellings and DefaultClassifier vs LoadLicenses on all embedded documents", exhaustive=True),
         ["relative spellings are exercised with chdir", "trees with *.txt files deeper than category/name/variant are only required not to panic"], time.time() - t0, len(v.violations))
     return rc
